@@ -379,10 +379,58 @@ pub struct Compiled2 {
     pub rp: Arc<refi::RefProg>,
 }
 
+/// The same program with the effects of its helper functions removed: every line in front of
+/// `fn main` that is a bare `string_println(..);` / `ref_set(..);` statement goes. Functions keep
+/// their names and signatures, so anything a compiler remembers *by name* from one compilation
+/// to the next ("this function is pure") is wrong for the real program.
+fn neutralised_twin(text: &str) -> Option<String> {
+    let cut = text.find("fn main(")?;
+    let (head, tail) = text.split_at(cut);
+    let mut out = String::new();
+    let mut changed = false;
+    for line in head.lines() {
+        let t = line.trim();
+        if (t.starts_with("string_println(") || t.starts_with("ref_set(") || t.starts_with("string_print(")) && t.ends_with(");") {
+            changed = true;
+            continue;
+        }
+        out.push_str(line);
+        out.push('\n');
+    }
+    if !changed {
+        return None;
+    }
+    // main itself is reduced to nothing: only the helpers matter
+    let _ = tail;
+    out.push_str("fn main() -> unit {\n    ()\n}\n");
+    Some(out)
+}
+
+pub static WARM_COMPILES: std::sync::atomic::AtomicU64 = std::sync::atomic::AtomicU64::new(0);
+
 pub fn compile_files(sb: &Sandbox, files: &Files, entropy: u64) -> Result<Compiled2, String> {
-    sb.materialise(files);
     let spec = ProcSpec { entropy, readdir: entropy, ..Default::default() };
-    let (sum, compiled, _) = ops::run_main(sb, &spec, false);
+    // one compilation in three happens in a process that has compiled the neutralised twin of
+    // the program just before (a function of the entropy seed, so replays need nothing extra)
+    let twin = if entropy % 3 == 0 && files.len() == 1 {
+        files.get("main.gom").and_then(|b| std::str::from_utf8(b).ok()).and_then(neutralised_twin)
+    } else {
+        None
+    };
+    let (sum, compiled) = match twin {
+        Some(t) => {
+            let mut both = files.clone();
+            both.insert("zzwarm/main.gom".into(), t.into_bytes());
+            sb.materialise(&both);
+            WARM_COMPILES.fetch_add(1, std::sync::atomic::Ordering::Relaxed);
+            ops::run_main_after(sb, &spec, "zzwarm/main.gom")
+        }
+        None => {
+            sb.materialise(files);
+            let (sum, compiled, _) = ops::run_main(sb, &spec, false);
+            (sum, compiled)
+        }
+    };
     match compiled {
         Some(c) => {
             let c = *c;
@@ -483,9 +531,9 @@ fn trace_shape(ev: &[Event]) -> String {
 }
 
 /// Line-based shrinking of the program text while the same violation class persists.
-fn shrink_source(sb: &Sandbox, text: &str, strategy: Strategy, seed: u64, class: &str) -> String {
+fn shrink_source(sb: &Sandbox, text: &str, strategy: Strategy, seed: u64, class: &str, entropy: u64) -> String {
     let still = |t: &str| -> bool {
-        let Ok(c) = compile_files(sb, &single(t), 1) else { return false };
+        let Ok(c) = compile_files(sb, &single(t), entropy) else { return false };
         for k in 0..4u64 {
             let ch = check_schedule(&c.gp, &c.rp, strategy, seed.wrapping_add(k), vec![], gort::DEFAULT_STEPS);
             if let Verdict::Violates(m) = &ch.verdict {
@@ -540,7 +588,8 @@ fn check_program(sb: &Sandbox, opts: &Opts, idx: usize, name: &str, text_or_file
     };
     let t0 = std::time::Instant::now();
     let _timer = Timer(t0, name.to_string());
-    let c = match compile_files(sb, text_or_files, mix(&[opts.seed, idx as u64, purpose("c09-entropy")])) {
+    let entropy = mix(&[opts.seed, idx as u64, purpose("c09-entropy")]);
+    let c = match compile_files(sb, text_or_files, entropy) {
         Ok(c) => c,
         Err(e) => {
             r.not_compiled = Some(e);
@@ -582,10 +631,10 @@ fn check_program(sb: &Sandbox, opts: &Opts, idx: usize, name: &str, text_or_file
                     }
                 }
                 let single_file = text_or_files.len() == 1;
-                let small = if single_file && harness::may_shrink() { shrink_source(sb, &src, strat, sd, &m.class) } else { src.clone() };
+                let small = if single_file && harness::may_shrink() { shrink_source(sb, &src, strat, sd, &m.class, entropy) } else { src.clone() };
                 let files = if single_file { single(&small) } else { text_or_files.clone() };
                 // final, exact replay data: the full schedule of the failing run on the shrunk program
-                let (sched, detail, class) = match compile_files(sb, &files, 1) {
+                let (sched, detail, class) = match compile_files(sb, &files, entropy) {
                     Ok(c2) => {
                         let mut found = None;
                         for kk in 0..8u64 {
@@ -613,6 +662,7 @@ fn check_program(sb: &Sandbox, opts: &Opts, idx: usize, name: &str, text_or_file
                         "strategy": strat,
                         "schedule": sched,
                         "class": class,
+                        "entropy": entropy,
                     }),
                 });
                 break;
@@ -737,6 +787,7 @@ pub fn run(opts: &Opts) -> i32 {
             violations.push(v);
         }
     }
+    ev.fault("process:compiled-after-the-neutralised-twin-on-the-same-thread", WARM_COMPILES.load(std::sync::atomic::Ordering::Relaxed));
     ev.extra.insert("programs".into(), json!(progs.len()));
     ev.extra.insert("schedules_per_program".into(), json!(nsched));
     ev.extra.insert("programs_skipped_unsupported".into(), json!(skipped));
@@ -773,7 +824,7 @@ pub fn replay(file: &Value) -> bool {
     let r = &file["replay"];
     let files = crate::props::c13::files_from_json(&r["files"]);
     let sb = Sandbox::new("c09replay").expect("sandbox");
-    let c = match compile_files(&sb, &files, 1) {
+    let c = match compile_files(&sb, &files, r["entropy"].as_u64().unwrap_or(1)) {
         Ok(c) => c,
         Err(e) => {
             println!("replay: program does not compile: {e}");
